@@ -4,7 +4,7 @@
 EXTENDS Merge, Json
 VARIABLES cfg, step
 Fields == <<"ds", "clip", "adjust", "thr", "out", "threads">>
-Dom(f) == CASE f = "ds" -> {1, 2, 3} [] f = "clip" -> {0, 2} [] f = "adjust" -> {0, 1, 3} [] f = "thr" -> {0, 1, 4}
+Dom(f) == CASE f = "ds" -> {1, 2, 3} [] f = "clip" -> {0, 2} [] f = "adjust" -> {0, 1, 3} [] f = "thr" -> {0, 1, 4, 50}
             [] f = "out" -> {"bw", "bigWig", "bedGraph", "type-bigwig", "type-BedGraph"} [] f = "threads" -> {1, 4}
 \* inputs: per bigWig a list of <<chrom, s, e, v>>
 Inputs(ds) == CASE ds = 1 -> << << <<1, 0, 3, 1>>, <<1, 5, 8, 2>>, <<2, 0, 2, 1>> >>, << <<1, 2, 6, 1>>, <<2, 1, 4, 3>> >> >>
